@@ -24,6 +24,7 @@ import Driver.EncFast
 import Driver.Writers
 import Driver.MtTrace
 import Driver.Lzma2W
+import Driver.EncNormal
 /-! Request handlers: each maps a parsed request to the canonical answer line. -/
 namespace Driver
 open LzmaVerif
@@ -434,6 +435,7 @@ def handle (cmd : String) (a : Args) : String :=
   | "encfast.parse" | "lzma.parse" => handleEncFast cmd a
   | "lzipw.fast" | "lzmaw.fast" => handleWriters cmd a
   | "lzma2w.fast" => handleLzma2W a
+  | "encnormal.parse" => handleEncNormalParse a
   | "mf.trace" => if a.get? "kind" == some "bt4" then handleMfBt4 a else handleMfTraceHc4 a
   | "lzdec.run" => handleLzDec a
   | "encwin.trace" => handleEncWin a
